@@ -49,70 +49,95 @@ func newStore(ss storage.Storage) *store {
 	return s
 }
 
-// flush changed keys to storage
-func (s *store) flush() {
-	s.mu.Lock()
-	defer s.mu.Unlock()
-	now := time.Now().UnixMilli()
+// records returns the records of the index. Neither flush nor gc may wait for a record lock while
+// holding the store lock: a transaction that holds the record may need the store lock to finish.
+func (s *store) records() []*metadata {
+	s.mu.RLock()
+	records := make([]*metadata, 0, s.metadata.Len())
 	s.metadata.Scan(func(key string, m *metadata) bool {
-		m.Lock()
-		defer m.Unlock()
-		if m.expired(now) || !m.isOk() {
-			// a dead key must not survive in storage either (it would come back, with its old
-			// value and deadline, when the storage is opened again)
-			m.unpersist(s.ss)
-			return true
-		}
-		if !m.modified() {
-			return true
-		}
-		if m.value == nil {
-			return true
-		}
-		// save to storage
-		err := m.persist(s.ss)
-		if err != nil {
-			log.Println("Flush changes: ", err)
-		}
+		records = append(records, m)
 		return true
 	})
+	s.mu.RUnlock()
+	return records
+}
+
+// current reports whether m (locked by the caller) is still the record of its key
+func (s *store) current(m *metadata) bool {
+	s.mu.RLock()
+	cur, ok := s.metadata.Get(m.key.Name)
+	s.mu.RUnlock()
+	return ok && cur == m
+}
+
+// flush changed keys to storage
+func (s *store) flush() {
+	now := time.Now().UnixMilli()
+	for _, m := range s.records() {
+		s.flushRecord(m, now)
+	}
+}
+
+func (s *store) flushRecord(m *metadata, now int64) {
+	m.Lock()
+	defer m.Unlock()
+	if !s.current(m) {
+		return
+	}
+	if m.expired(now) || !m.isOk() {
+		// a dead key must not survive in storage either (it would come back, with its old
+		// value and deadline, when the storage is opened again)
+		m.unpersist(s.ss)
+		return
+	}
+	if !m.modified() {
+		return
+	}
+	if m.value == nil {
+		return
+	}
+	// save to storage
+	err := m.persist(s.ss)
+	if err != nil {
+		log.Println("Flush changes: ", err)
+	}
 }
 
 // gc removes expired and unused keys
 func (s *store) gc() {
-	s.mu.Lock()
-	defer s.mu.Unlock()
 	if s.closed {
 		return
 	}
 	now := time.Now().UnixMilli()
-	// expired keys are unlinked after the scan: deleting from the btree while it is being
-	// scanned skips the following key and panics (index out of range) on larger indexes
-	var expired []string
-	s.metadata.Scan(func(key string, m *metadata) bool {
-		m.Lock()
-		defer m.Unlock()
-		if m.expired(now) || !m.isOk() {
-			expired = append(expired, key)
-			m.unpersist(s.ss)
-			return true
+	for _, m := range s.records() {
+		s.gcRecord(m, now)
+	}
+}
+
+func (s *store) gcRecord(m *metadata, now int64) {
+	m.Lock()
+	defer m.Unlock()
+	if !s.current(m) {
+		return
+	}
+	if m.expired(now) || !m.isOk() {
+		m.unpersist(s.ss)
+		s.mu.Lock()
+		s.metadata.Delete(m.key.Name)
+		s.mu.Unlock()
+		return
+	}
+	if m.modified() {
+		err := m.persist(s.ss)
+		if err != nil {
+			// the value is still only in memory: keep it there and keep it marked modified
+			log.Println("GC: ", err)
+			return
 		}
-		if m.modified() {
-			err := m.persist(s.ss)
-			if err != nil {
-				// the value is still only in memory: keep it there and keep it marked modified
-				log.Println("GC: ", err)
-				return true
-			}
-		}
-		m.reset()
-		if m.count < 0 {
-			m.removeFromMemory()
-		}
-		return true
-	})
-	for _, key := range expired {
-		s.metadata.Delete(key)
+	}
+	m.reset()
+	if m.count < 0 {
+		m.removeFromMemory()
 	}
 }
 
